@@ -99,6 +99,33 @@ class Lock:
         self.f.close()
 
 
+class Slot:
+    """System-wide bound on concurrently running coqc case evaluations (several checks may run at
+    the same time on one machine; each coqc needs a few hundred MB)."""
+    N = int(os.environ.get("VERIF_COQ_SLOTS", str(NCPU)))
+
+    def __enter__(self):
+        d = os.path.join(tempfile.gettempdir(), "verif-coq-slots")
+        os.makedirs(d, exist_ok=True)
+        import random
+        while True:
+            order = list(range(self.N))
+            random.shuffle(order)
+            for i in order:
+                f = open(os.path.join(d, "slot-%d" % i), "w")
+                try:
+                    fcntl.flock(f, fcntl.LOCK_EX | fcntl.LOCK_NB)
+                    self.f = f
+                    return self
+                except OSError:
+                    f.close()
+            time.sleep(0.2)
+
+    def __exit__(self, *a):
+        fcntl.flock(self.f, fcntl.LOCK_UN)
+        self.f.close()
+
+
 # ----------------------------------------------------------------------------- Coq
 
 def coq_dir(prop):
@@ -281,7 +308,8 @@ def eval_cases(prop, case_files, timeout=1200):
 
     def one(f):
         d = os.path.dirname(f)
-        rc, out = run(["coqc"] + coq_args(prop) + ["-Q", d, "Cases", f], cwd=d, timeout=timeout)
+        with Slot():
+            rc, out = run(["coqc"] + coq_args(prop) + ["-Q", d, "Cases", f], cwd=d, timeout=timeout)
         return f, rc, out
 
     with ThreadPoolExecutor(max_workers=NCPU) as ex:
